@@ -2341,69 +2341,47 @@ def _optimizeStaticValueCalculations(bodyElements):
         return bodyElements
 
 
-    # We are already going to hit __class__ on every object, so do it ahead of time
-    #  in a quicker list comprehension, which we will reference later
-    bodyElementClasses = [bodyElement.__class__ for bodyElement in bodyElements]
+    # Run the same passes, in the same order, as BodyLevel.evaluateLevelForTags does at run time
+    #  (operations, then comparisons; boolean ops are not pre-calculated).
+    #  Each entry is ( class of this pass, classes processed by later passes, function to apply )
+    passes = (
+        ( BodyElementOperation, (BodyElementComparison, BodyElementBooleanOps), lambda _op, _left, _right : _op.performOperation(_left, _right) ),
+        ( BodyElementComparison, (BodyElementBooleanOps, ), lambda _op, _left, _right : _op.doComparison(_left, _right) ),
+    )
 
-    # No benefit in checking if we have any BodyElementOperation (or future optimizations) first,
-    #  as we will already iterate over everything. The only thing saved when none would be recreating the list,
-    #  at the expense of O(n) vs O(2n) for the check in the event we can optimize.
+    ret = bodyElements
 
-    ret = []
+    for passClass, laterClasses, applyFunction in passes:
 
-    prevElement = bodyElements[0]
-    prevElementClass = bodyElementClasses[0]
+        curElements = ret
+        numElements = len(curElements)
 
-    ret.append(prevElement)
+        ret = []
 
-    i = 1
-    while i < numOrigElements:
+        i = 0
+        while i < numElements:
 
-        curElement = bodyElements[i]
-        curElementClass = bodyElementClasses[i]
+            curElement = curElements[i]
 
-        if issubclass(curElementClass, (BodyElementOperation, BodyElementComparison)):
-            # If we have an operation to optimize, check if left and right are already values.
-            #  If so, we can run it.
+            # An operation of this pass can be ran now if it has a value on both sides, and those values are
+            #  exactly what the operation will be given at run time. That is:
+            #    the left value is not itself the right side of an operation that is still pending
+            #      ( e.x. the second "-" in:   @n - 1 - 1 ),
+            #    and the right value is not the left side of an operation which gets evaluated first
+            #      ( e.x. the "=" in:   2 = 1 + @n )
+            if issubclass(curElement.__class__, passClass) and (i + 1) < numElements and len(ret) > 0 and \
+                    issubclass(ret[-1].__class__, BodyElementValue) and issubclass(curElements[i + 1].__class__, BodyElementValue) and \
+                    ( len(ret) == 1 or issubclass(ret[-2].__class__, laterClasses) ) and \
+                    ( (i + 2) >= numElements or issubclass(curElements[i + 2].__class__, (passClass, ) + laterClasses) ):
 
-            if (i+1) < numOrigElements and issubclass(prevElementClass, BodyElementValue):
-                # We are not on the last element, and the previous was a value.
-                #  If next is value, run the operation.
+                # Score! Replace the left value with the calculated one, and move past the operation and the right value
+                ret[-1] = applyFunction(curElement, ret[-1], curElements[i + 1])
+                i += 2
+                continue
 
-                nextElement = bodyElements[i + 1]
-                nextElementClass = bodyElementClasses[i + 1]
-
-                if issubclass(nextElementClass, BodyElementValue):
-
-                    # Score! We can optimize!
-                    if issubclass(curElementClass, BodyElementOperation):
-                        calculatedValue = curElement.performOperation(prevElement, nextElement)
-                    #elif issubclass(curElementClass, BodyElementComparison):
-                    else:
-                        # Only Comparison left
-                        calculatedValue = curElement.doComparison(prevElement, nextElement)
-
-                    # Strip off the previous value, and replace this operation and next value with calculated
-                    ret = ret[ : -1 ] + [calculatedValue]
-
-                    # Set previous value to this value
-                    prevElement = calculatedValue
-                    prevElementClass = prevElement.__class__
-
-                    # And increment past the next element
-                    i += 2
-
-                    continue
-
-        # No optimization available, add the element as-is
-        ret.append(curElement)
-
-        # Update previous element to this element for next round
-        prevElement = curElement
-        prevElementClass = curElementClass
-
-        # Increment to next element
-        i += 1
+            # No optimization available, add the element as-is
+            ret.append(curElement)
+            i += 1
 
     return ret
 
